@@ -12,7 +12,7 @@ DEMO_CMD=$(python3 -c "import json;print(json.load(open('$D/meta.json'))['demo_c
 DEMO_FILE=$(ls $D/*_test.go 2>/dev/null | head -1)
 # 1. demo passes on the original
 mkdir -p $(dirname $DEMO_PATH); cp $DEMO_FILE $DEMO_PATH
-DEMO_CMD=$(echo "$DEMO_CMD" | sed -E 's#cd /tmp/mut/C[0-9]+ *&& *##; s#GOFLAGS=[^ ]+ ##; s#GOPROXY=[^ ]+ ##')
+DEMO_CMD=$(echo "$DEMO_CMD" | sed -E 's#^cd [^&]*&& *##; s#GOFLAGS=[^ ]+ ##; s#GOPROXY=[^ ]+ ##')
 orig_out=$(timeout 600 bash -c "$DEMO_CMD" 2>&1); orig_rc=$?
 # 2. apply mutant: suite passes (without demo), demo fails
 rm -f $DEMO_PATH
